@@ -273,6 +273,73 @@ func TestCloudStageHistories(t *testing.T) {
 				expectLookups(newly)
 				waitDeliveries()
 			},
+			"completeBetweenCacheReadAndHandOff": func(t *rapid.T) {
+				// a batch from source s misses the cache (a lookup for s is outstanding, items are parked); before the batch is
+				// handed to the stage's goroutine the lookup completes: the cache is filled, the answer is taken and the parked
+				// items leave. The batch then arrives with nothing parked and no lookup outstanding - it still has to leave.
+				var open []gostatsd.Source
+				for s := range requested {
+					if p := park[s]; p != nil && len(p.points) > 0 {
+						if _, hit := ci.Peek(s); !hit {
+							open = append(open, s)
+						}
+					}
+				}
+				if len(open) == 0 {
+					t.Skip("no uncached source with parked metrics and an outstanding lookup")
+				}
+				sort.Slice(open, func(i, j int) bool { return open[i] < open[j] })
+				s := rapid.SampledFrom(open).Draw(t, "source")
+				var in *gostatsd.Instance
+				if rapid.Bool().Draw(t, "found") {
+					in = instFor(t, s)
+				}
+				m := gen.Datapoint(rapid.Int64Range(1, 3)).Draw(t, "dp")
+				m.Source = s
+				mm := gen.MapFromMetrics([]*gostatsd.Metric{m})
+				history = append(history, fmt.Sprintf("completeBetweenCacheReadAndHandOff(%q,found=%v) metrics%v", s, in != nil, gen.DescribeMetrics([]*gostatsd.Metric{m})))
+				fired := false
+				ci.SetAfterPeek(func(src gostatsd.Source, hit bool) {
+					if src != s || fired || hit {
+						return
+					}
+					fired = true
+					// the old lookup completes now: cache filled, answer delivered, parked items released
+					p := park[s]
+					for _, pm := range p.points {
+						delivered.AddMetric(enrich(pm, in))
+					}
+					expectMaps++
+					for _, e := range p.events {
+						c := fakes.CopyEvent(e)
+						if in != nil {
+							c.Tags = append(c.Tags, in.Tags...)
+							c.Source = in.ID
+						}
+						deliveredEvents = append(deliveredEvents, describeEvent(c))
+						expectEvents++
+					}
+					delete(park, s)
+					delete(requested, s)
+					ci.Set(s, in)
+					select {
+					case ci.Info <- gostatsd.InstanceInfo{IP: s, Instance: in}:
+					case <-time.After(30 * time.Second):
+						fail("C11:completion-not-accepted", "the stage did not take the lookup answer for %q within 30s", s)
+					}
+					waitDeliveries()
+				})
+				ch.DispatchMetricMap(ctx, mm)
+				ci.SetAfterPeek(nil)
+				if !fired {
+					fail("C11:harness", "the stage did not read the cache for %q when the batch was dispatched", s)
+				}
+				// the batch saw a miss: it is parked under a new lookup, whatever the cache says by now
+				park[s] = &parked{points: []*gostatsd.Metric{m}, batches: 1}
+				expectLookups([]gostatsd.Source{s})
+				waitDeliveries()
+				nontrivial = true
+			},
 			"completeWhileDownstreamBusy": func(t *rapid.T) {
 				// a lookup completes for a source with several parked events while the downstream stage is stuck on the
 				// first of them; more events of that source arrive (and miss the cache again) before the release is over
